@@ -1,0 +1,9 @@
+//go:build verif
+
+package gorillamux
+
+// C15 (sufficient condition): route lookup writes neither the document nor the router.
+//@ func (*Router).FindRoute
+//@   modifies *
+//@   preserves @C15 all(openapi3), all(routers), all(gorillamux)
+//@   preserves @C15 globals(openapi3), globals(routers), globals(gorillamux)
